@@ -1,0 +1,17 @@
+//go:build verif
+
+package samlidp
+
+import "sync"
+
+// VerifHook, when non-nil, is called at every lock operation and guarded map
+// access of the server and the in-memory store (event, resource, guarding
+// mutex). It exists only in builds with the "verif" tag and may block: the
+// verification harness uses it to record and to schedule concurrent requests.
+var VerifHook func(ev, res string, mu *sync.RWMutex)
+
+func vhook(ev, res string, mu *sync.RWMutex) {
+	if h := VerifHook; h != nil {
+		h(ev, res, mu)
+	}
+}
